@@ -39,19 +39,21 @@ func main() {
 		defer close(splitDone)
 		secDecimateSplitAttempts(r)
 	}()
+
+	// well-shaped FlipDelaunay inputs first; only then the degenerate ones, whose
+	// confirmed non-return removes the API from the rest of the run
+	timed("secFlipDelaunay", func() { secFlipDelaunay(r) })
 	flipDone := make(chan struct{})
 	go func() {
 		defer close(flipDone)
 		secFlipDelaunayDegenerate(r)
 	}()
-
 	timed("secSubdivideEdges", func() { secSubdivideEdges(r) })
 	timed("secLoop", func() { secLoop(r) })
 	timed("secSubdivider", func() { secSubdivider(r) })
 	timed("secDecimate", func() { secDecimate(r) })
 	timed("secCoplanar", func() { secCoplanar(r) })
 	timed("secEliminateEdges", func() { secEliminateEdges(r) })
-	timed("secFlipDelaunay", func() { secFlipDelaunay(r) })
 	timed("secBlur", func() { secBlur(r) })
 	timed("secSmoothers", func() { secSmoothers(r) })
 	timed("secFlattenBase", func() { secFlattenBase(r) })
